@@ -29,6 +29,28 @@ HDR = "LHAFileHeader"
 F_PERMS, F_UIDGID = 0x01, 0x02
 
 
+
+def mode_param(f, M, op, k):
+    """op is parameter k, possibly through casts and a mask that keeps every permission bit (07777): chmod ignores the rest"""
+    for _ in range(6):
+        if M.match(("param", k), op, {}) is not None:
+            return True
+        d = f.defn(M.strip(op))
+        if d is None or d.is_param:
+            return False
+        if d.op in ("zext", "sext", "trunc", "bitcast"):
+            op = d.ops[0]
+            continue
+        if d.op == "and":
+            cs = [x for x in d.ops if is_const(x)]
+            vs = [x for x in d.ops if not is_const(x)]
+            if len(cs) == 1 and len(vs) == 1 and const_val(cs[0]) is not None and (const_val(cs[0]) & 0o7777) == 0o7777:
+                op = vs[0]
+                continue
+        return False
+    return False
+
+
 def fld(name, h):
     return ("load", ("field", HDR, name, h))
 
@@ -134,7 +156,7 @@ def run(tier, seed):
         if am:
             M = Matcher(am)
             cs = [c for c in am.insts() if c.op == "call" and mod.callee_cname(c) in ("chmod", "fchmodat")]
-            ok = len(cs) == 1 and mod.callee_cname(cs[0]) == "chmod" and all(M.match(("param", k), cs[0].ops[k], {}) is not None for k in range(2))
+            ok = len(cs) == 1 and mod.callee_cname(cs[0]) == "chmod" and M.match(("param", 0), cs[0].ops[0], {}) is not None and mode_param(am, M, cs[0].ops[1], 1)
             rep.check(rid, ok, "lha_arch_chmod calls chmod(filename, perms) with its parameters in order", am.file, None, function=am.cname, obj="chmod-call")
 
         # ---- R4 creation -----------------------------------------------------------------------------------------------------
@@ -179,7 +201,7 @@ def run(tier, seed):
             rep.check(rid, len(fch) == 1 and okfd and M.strip(fch[0].ops[0]) == ("v", opens[0].id) and M.match(("param", 1), fch[0].ops[1], {}) is not None and
                       M.match(("param", 2), fch[0].ops[2], {}) is not None, "fchown(fd, unix_uid, unix_gid) on the opened descriptor, parameters in order", fo.file, None,
                       function=fo.cname, obj="fchown")
-            rep.check(rid, len(fcm) == 1 and okfd and M.strip(fcm[0].ops[0]) == ("v", opens[0].id) and M.match(("param", 3), fcm[0].ops[1], {}) is not None,
+            rep.check(rid, len(fcm) == 1 and okfd and M.strip(fcm[0].ops[0]) == ("v", opens[0].id) and mode_param(fo, M, fcm[0].ops[1], 3),
                       "fchmod(fd, unix_perms) on the opened descriptor", fo.file, None, function=fo.cname, obj="fchmod")
             if len(fch) == 1:
                 rep.check(rid, M.find_fact(("sge", ("param", 1), 0), F.at_inst(fch[0]))[0] is not None, "owner set only for uid >= 0", fch[0].where(), None, function=fo.cname, obj="fchown-guard")
